@@ -63,21 +63,39 @@ char *strcat(char *d, const char *s)
     }
     return d;
 }
-/* malloc/realloc for the bounded units.  cbmc's own malloc gives a block whose size is a symbolic
- * expression whenever the requested size depends on the input (strlen(pstr)+1 ...); such blocks are
- * encoded with the array theory and the B units then need > 36 GB.  This model is the same allocator
- * (fresh dynamic object of EXACTLY n bytes, uninitialised, freed by cbmc's own free) but it branches on
- * the requested size so that every block has a constant size: exact bounds checks, no array theory.
- * Sizes above VS_MALLOC_MAX fall through to the symbolic-size allocation. */
-#define VS_M(k) case k: return __CPROVER_allocate(k, 0);
+/* malloc/realloc for the bounded units ("fat blocks with a ghost canary").
+ * cbmc's own malloc gives a block whose size is a symbolic expression whenever the requested size
+ * depends on the input (strlen(pstr)+1 ...); such blocks are encoded with the array theory and the B
+ * units then need > 36 GB (probed; a variant that branches on the size to get constant-size blocks also
+ * runs out of memory).  Model used instead:
+ *   - every block is a fresh dynamic object of VS_FAT data bytes (uninitialised), released by cbmc's own
+ *     free (double free / invalid free checks stay in force); requests above VS_FAT fail an assertion;
+ *   - the requested size n is recorded in a ghost table indexed by cbmc's object number; the byte at ghost index vg_k2 is set to a canary
+ *     when n <= vg_k2 < VS_FAT.  vs_check_block() asserts that the canary is still there: because vg_k2
+ *     is arbitrary this is "no byte beyond the requested size was WRITTEN" for every offset up to VS_FAT.
+ *     The check runs in realloc (on the old block) and wherever the harness calls it (returned blocks).
+ * Not seen by this model: READS between the requested size and VS_FAT inside a block the code owns, and
+ * writes further than VS_FAT - n bytes beyond a block are reported as plain out-of-bounds accesses. */
+#define VS_FAT 64
+#define VS_CANARY 0x5A
+#ifndef VS_OBJS
+# define VS_OBJS 256              /* 2^object-bits of the unit */
+#endif
+static unsigned char vs_req[VS_OBJS];
 void *malloc(size_t n)
 {
-    switch (n) {
-      VS_M(1) VS_M(2) VS_M(3) VS_M(4) VS_M(5) VS_M(6) VS_M(7) VS_M(8) VS_M(9) VS_M(10) VS_M(11) VS_M(12)
-      VS_M(13) VS_M(14) VS_M(15) VS_M(16) VS_M(17) VS_M(18) VS_M(19) VS_M(20) VS_M(24) VS_M(32) VS_M(40)
-      VS_M(48) VS_M(56) VS_M(64)
-      default: return __CPROVER_allocate(n, 0);
-    }
+    char *p;
+    __CPROVER_assert(n <= VS_FAT, "malloc model: request fits the fixed block capacity of this unit");
+    p = (char *) __CPROVER_allocate(VS_FAT, 0);
+    vs_req[__CPROVER_POINTER_OBJECT(p) % VS_OBJS] = (unsigned char) n;
+    if (vg_k2 >= n && vg_k2 < VS_FAT) p[vg_k2] = VS_CANARY;
+    return p;
+}
+void vs_check_block(const void *p)
+{
+    size_t n = vs_req[__CPROVER_POINTER_OBJECT(p) % VS_OBJS];
+    __CPROVER_assert(!(vg_k2 >= n && vg_k2 < VS_FAT) || ((const char *) p)[vg_k2] == VS_CANARY,
+                     "heap: no byte written beyond the requested size of a block");
 }
 void *realloc(void *p, size_t n)
 {
@@ -85,8 +103,9 @@ void *realloc(void *p, size_t n)
     size_t m;
     if (p == NULL) return malloc(n);
     __CPROVER_assert(__CPROVER_POINTER_OFFSET(p) == 0, "realloc: pointer is the start of a block");
-    r = malloc(n);
-    m = __CPROVER_OBJECT_SIZE(p);
+    vs_check_block(p);
+    r = (char *) malloc(n);
+    m = vs_req[__CPROVER_POINTER_OBJECT(p) % VS_OBJS];
     if (n < m) m = n;
     memcpy(r, p, m);
     free(p);
